@@ -21,7 +21,7 @@ from ..term import Resolver, pmatch
 
 COV = "inference/gp/covariance.py"
 FLOORS = {"kernel-siblings-agree": 11, "difference-before-square": 2, "float-arithmetic": 1, "state-refreshed": 1, "components-not-shared": 1, "posterior-closed-form": 6, "factor-of": 1, "triangular-solves": 1, "kernel-result-shape": 2,
-          "error-input-typestate": 3, "query-normalisation": 4}
+          "error-input-typestate": 3, "query-normalisation": 4, "axis-order": 2}
 
 
 def run(prog, tier):
@@ -39,6 +39,8 @@ def run(prog, tier):
     # when the matrix algebra below cannot follow a restructured error model)
     c, ce = prog.method("GpRegressor", "check_error_data")
     early = _error_inputs(prog, c, ce)
+    from .axrules import gp_axis_obligations
+    early = early + gp_axis_obligations(prog, "axis-order", ["__call__", "build_posterior"])
     obs.extend(early)
     try:
         return _run_rest(prog, tier, obs, info, problems)
